@@ -24,6 +24,8 @@ import (
 	"sort"
 	"strconv"
 	"strings"
+
+	"verifharness/internal/synth"
 )
 
 // LoadSynth loads the per-rule inputs committed under corpus/synth/index.json (one single-file package each).
@@ -52,6 +54,30 @@ func LoadSynth() ([]*Pkg, []string) {
 			continue
 		}
 		out = append(out, p)
+	}
+	// patterns of the CURRENT embedded rules that the committed store has never seen (a rule or an alternative added or
+	// edited since): an input is searched now, from the pattern itself, so that the namesake / retype transforms of S4 and
+	// the three oracles reach the new pattern in the same run
+	var fresh []synth.Target
+	seenKey := map[string]bool{}
+	for _, t := range synth.Targets(nil) {
+		if _, known := idx[t.Key()]; !known && !seenKey[t.Key()] {
+			seenKey[t.Key()] = true
+			fresh = append(fresh, t)
+		}
+	}
+	if len(fresh) > 0 {
+		hits, _ := synth.Resolve(fresh, synth.Corpus{}, 1500, synth.MkGroup)
+		sort.Slice(hits, func(i, j int) bool { return hits[i].Target.Key() < hits[j].Target.Key() })
+		for _, h := range hits {
+			p, err := TypeCheck("SY", "SY/fresh-"+h.Target.Key(), "", map[string][]byte{"synth.go": []byte(h.Source)})
+			if err != nil {
+				skipped = append(skipped, fmt.Sprintf("SY/fresh-%s: %v", h.Target.Key(), err))
+				continue
+			}
+			p.Origin = fmt.Sprintf("input synthesised during this run for the pattern %q of rule group %s (not in corpus/synth)", h.Target.Pattern, h.Target.Group)
+			out = append(out, p)
+		}
 	}
 	return out, skipped
 }
@@ -659,8 +685,15 @@ func Systematic(bases []*Pkg, tier string, seed int64, stats map[string]int) []*
 	if tier == "thorough" {
 		rots = []int{0, 1, 2}
 	}
+	calleeForms := []int{int(seed % 4)}
+	if tier == "thorough" {
+		calleeForms = []int{0, 1, 2, 3}
+	}
 	var lastAdded *Pkg
+	var extraFiles map[string][]byte
 	add := func(base *Pkg, f *File, kind string, eds []edit, ins []insertion) {
+		extra := extraFiles
+		extraFiles = nil
 		lastAdded = nil
 		if len(eds) == 0 {
 			stats["s4-inapplicable:"+kind]++
@@ -668,6 +701,9 @@ func Systematic(bases []*Pkg, tier string, seed int64, stats map[string]int) []*
 		}
 		srcs := base.Sources()
 		srcs[f.Name] = applyEdits(f.Src, eds)
+		for name, src := range extra {
+			srcs[name] = src
+		}
 		np, err := TypeCheck("S4", base.Name, "", srcs)
 		if err != nil {
 			stats["s4-ill-typed:"+kind]++
@@ -728,6 +764,50 @@ func Systematic(bases []*Pkg, tier string, seed int64, stats map[string]int) []*
 				if lastAdded != nil {
 					lastAdded.Fresh = true
 				}
+			}
+			for _, form := range calleeForms {
+				add(base, f, "callee-forms"+strconv.Itoa(form), sysCalleeForms(base, f, form), nil)
+			}
+			if base.Stream == "S1" {
+				add(base, f, "doc-block", sysDocBlock(f), nil)
+				if lastAdded != nil {
+					// the same file with \r\n line ends
+					lf := lastAdded.Files[0]
+					for _, x := range lastAdded.Files {
+						if x.Name == f.Name {
+							lf = x
+						}
+					}
+					if eds, _ := sysCRLF(lf.Src); len(eds) > 0 {
+						srcs := lastAdded.Sources()
+						srcs[f.Name] = applyEdits(lf.Src, eds)
+						if np, err := TypeCheck("S4", base.Name, "", srcs); err == nil {
+							np.Stream, np.Focus, np.DefaultOnly = "S4", f.Name, true
+							np.Name = fmt.Sprintf("S4/%s#doc-block-crlf", strings.TrimPrefix(base.Name, "S1/"))
+							np.Origin = fmt.Sprintf("%s/%s transformed by doc-block, then every line end made \\r\\n", base.Name, f.Name)
+							out = append(out, np)
+							stats["s4-ok:doc-block-crlf"]++
+						}
+					}
+				}
+				eds, ins := sysCRLF(f.Src)
+				add(base, f, "crlf", eds, ins)
+			}
+			for v := 0; v < 2; v++ {
+				add(base, f, "anon-params"+strconv.Itoa(v), sysAnonParams(base, f, v), nil)
+			}
+			add(base, f, "unicode-strings", sysUnicodeStrings(f), nil)
+			{
+				eds, ins := sysPrependStmt(f)
+				add(base, f, "prepend-stmt", eds, ins)
+				if lastAdded != nil {
+					lastAdded.InsWhat = "the statement `_ = 0` in front of the first statement of every function body"
+				}
+			}
+			{
+				eds, extra := sysSplitDecls(base, f)
+				extraFiles = extra
+				add(base, f, "split-decls", eds, nil)
 			}
 			add(base, f, "namesake-alias", sysNamesakeAlias(base, f), nil)
 			add(base, f, "namesake-import", sysNamesakeImport(base, f), nil)
